@@ -5,7 +5,7 @@ import math
 import numpy as onp
 
 from .. import values
-from ..case import Outcome, fail, ok, raised
+from ..case import Outcome, fail, from_autograd, ok, raised
 from ..engine import Prop, Test
 from ..refs import tape as T
 
@@ -730,11 +730,49 @@ def selftest():
 
 from functools import partial  # noqa: E402
 
+def kink_graph_body(c):
+    """A piecewise operation evaluated exactly ON one of its kinks (C04's kink families: clip bounds, ties under sort / maximum / minimum / max, exact
+    zeros) inside a small graph with fan-out: K = piece(t); y = sin(K) * t + K * K.  Each mode picks a one-sided derivative at the kink; the Jacobian
+    assembled from forward passes (one per input direction) and the one assembled from reverse passes (one per output) are the same matrix."""
+    import autograd
+    import autograd.numpy as anp
+
+    from .c04 import kinks_setup
+
+    fam, piece, x, _v, _g, sample = kinks_setup(c)
+
+    def f(t):
+        K = piece(t)
+        return anp.sin(K) * t + K * K
+
+    n = x.size
+    try:
+        with onp.errstate(all="ignore"):
+            Jr = onp.asarray(autograd.jacobian(f)(x))
+            cols = [onp.asarray(autograd.make_jvp(f)(x)(onp.eye(n)[k])[1]) for k in range(n)]
+    except Exception as e:
+        if not from_autograd(e):
+            raise
+        return raised(e, "kink_graph", sample=sample)
+    Jf = onp.stack(cols, axis=-1)
+    if Jf.shape != Jr.shape:
+        return fail("wrong_shape", f"forward Jacobian {Jf.shape}, reverse Jacobian {Jr.shape}", f"C03|kink_graph|{fam}|shape", sample=sample)
+    if not (onp.all(onp.isfinite(Jf)) and onp.all(onp.isfinite(Jr))):
+        if onp.all(onp.isfinite(Jf)) != onp.all(onp.isfinite(Jr)):
+            return fail("modes_differ", f"on a kink of {fam}: one mode returns non-finite entries where the other returns finite ones", f"C03|kink_graph|{fam}|nonfinite", sample=sample)
+        return Outcome("inconclusive", kind="neither mode defined at the kink", sample=sample)
+    if not onp.allclose(Jf, Jr, rtol=1e-12, atol=1e-13):
+        return fail("modes_differ", f"on a kink of {fam}: forward-mode and reverse-mode Jacobians differ by {float(onp.max(onp.abs(Jf - Jr))):.3e}", f"C03|kink_graph|{fam}|value", sample=sample)
+    c.features.update(family=fam)
+    return ok(nontrivial=True, key=json.dumps([fam, sample["n"], sample["kind"], sample["x"]]), labels=["kink_graph", "family=" + fam], sample=sample)
+
+
 PROP = Prop("C03", [
     Test("programs", partial(body, 12), quick=1500, thorough=20000, shard_size=250),
     Test("programs_large", partial(body, 40), quick=300, thorough=10000, shard_size=250),
     Test("toposort", toposort_body, quick=3000, thorough=100000, shard_size=2500),
     Test("array_programs", array_body, quick=1500, thorough=20000, shard_size=250),
+    Test("kink_graph", kink_graph_body, quick=1000, thorough=8000, shard_size=250),
 ], RULE, selftest=selftest, assumptions=[
     "reference tape (vh/refs/tape.py, ~100 lines, forward and reverse sweeps cross-checked on every case) is correct",
     "dual-number reference sweep for array programs (vh/refs/dual.py) is correct; it is checked against central differences at start-up",
